@@ -2817,6 +2817,10 @@ class WBEMConnection:  # pylint: disable=too-many-instance-attributes
         enumeration_context = None
         end_of_sequence_found = False  # flag True if found and valid value
         enumeration_context_found = False  # flag True if ec tuple found
+        if result is None:
+            # _imethodcall() returns None for a response without any child
+            # elements; the checks below then report what is missing.
+            result = []
         for p in result:
             if p[0] == 'EndOfSequence':
                 if isinstance(p[2], str):
